@@ -142,7 +142,8 @@ Proof.
   unfold tstep in S.
   destruct o as [c d a|c|c v|c a|c a|c f to|c a|c a|c f|c a|c a|c f|c a v|c|c m n s|self result]; cbn [top_ctx run_endpoint] in S.
   16:{ destruct (tm_pending t =? 0); [inversion S; subst; exact B|].
-       destruct result as [tok|]; cbn in S; inversion S; subst; exact B. }
+       unfold deploy_token_callback in S.
+       destruct result as [tok|]; [destruct (bytes_eqb (tm_token t) [])|]; cbn in S; inversion S; subst; exact B. }
   all: destruct (pay_in l (t_caller c) (t_self c) (t_value c)) as [l1|]; [|inversion S; subst; exact B].
   - (* give *) unfold give_token in S.
     destruct (negb _ || negb _); [inversion S; subst; exact B|].
@@ -223,7 +224,8 @@ Proof.
   unfold tstep in S.
   destruct o as [c d a|c|c v|c a|c a|c f to|c a|c a|c f|c a|c a|c f|c a v|c|c m n s|self result]; cbn [top_ctx run_endpoint] in S.
   16:{ exfalso. apply Hne. destruct (tm_pending t =? 0); [inversion S; subst; reflexivity|].
-       destruct result as [tok|]; cbn in S; inversion S; subst; reflexivity. }
+       unfold deploy_token_callback in S.
+       destruct result as [tok|]; [destruct (bytes_eqb (tm_token t) [])|]; cbn in S; inversion S; subst; reflexivity. }
   all: destruct (pay_in l (t_caller c) (t_self c) (t_value c)) as [l1|]; [|exfalso; apply Hne; inversion S; subst; reflexivity].
   3:{ unfold set_flow_limit in S. destruct (negb _); [exfalso; apply Hne; inversion S; subst; reflexivity|].
       destruct (only_role t c FLOW_LIMITER) eqn:R; [|exfalso; apply Hne; inversion S; subst; reflexivity].
